@@ -1,6 +1,6 @@
 package main
 
-// C17: a B-tree store behaves as a correctly ordered collection (three structural clauses only).
+// C17: a B-tree store behaves as a correctly ordered collection (five structural clauses only).
 
 import (
 	"fmt"
@@ -11,7 +11,7 @@ import (
 
 func init() {
 	register("C17", propMeta{
-		Explanation: "Decides three structural necessary conditions of ordered-collection behaviour, not the behaviour: (R1) updates that would change a key's order are rejected: in UpdateCurrentKey and UpdateCurrentItem the comparison `compare(currentKey, newKey) != 0` with an error return dominates every store of the new key into the item and the node slot; UpdateKey / UpdateCurrentItem reach those two only; (R2) sibling rotation moves exactly one parent separator, so the sibling helpers must return the ADJACENT child only: getLeftSibling / getRightSibling contain no loop, take the node's own index from getIndexOfNode and ask the parent for the child at index-1 / index+1 through getChild (a nil child yields nil: no vacancy is seen across an emptied sibling); the vacancy tests and the distribute functions obtain siblings only through these helpers. (R3) cursor stepping: in moveToNext / moveToPrevious every descent step is taken only after the nil-child escape of the same direction was consulted on the node being left, initially and between successive descent steps.",
+		Explanation: "Decides five structural necessary conditions of ordered-collection behaviour, not the behaviour: (R1) updates that would change a key's order are rejected: in UpdateCurrentKey and UpdateCurrentItem the comparison `compare(currentKey, newKey) != 0` with an error return dominates every store of the new key into the item and the node slot; UpdateKey / UpdateCurrentItem reach those two only; (R2) sibling rotation moves exactly one parent separator, so the sibling helpers must return the ADJACENT child only: getLeftSibling / getRightSibling contain no loop, take the node's own index from getIndexOfNode and ask the parent for the child at index-1 / index+1 through getChild (a nil child yields nil: no vacancy is seen across an emptied sibling); the vacancy tests and the distribute functions obtain siblings only through these helpers. (R3) cursor stepping: in moveToNext / moveToPrevious every descent step is taken only after the nil-child escape of the same direction was consulted on the node being left, initially and between successive descent steps. (R4) whenever a node's Slots are cleared to be repopulated its Count is assigned before the node is saved; (R5) a function that hangs a new child holding a caller-supplied item under ChildrenIDs[i] takes i from its caller, a key comparison or a direction argument.",
 		DoesNotCover: "Splits, rotations, deletes, scan order against a model, and Count after arbitrary operation sequences are value-level behaviour and are NOT decided here (C05/C06 cover the duplicate check and the count bookkeeping).",
 	}, runC17)
 }
@@ -142,5 +142,169 @@ func runC17(c *Ctx) {
 		offs = g.MustFollow(desc, calls(spec.escape), calls("btree.Node.getChild"))
 		c.Offences(g, offs, r3, shortKey(spec.fn)+": the escape is consulted again before every further descent step", f.Decl.Pos(), "between two getChild calls the escape is always called",
 			"after one descent step the next one is taken without consulting the nil-child escape on the new node: when that node's child in the scan direction is nil (left behind by deletes) the scan reports the end of the tree instead of stepping to the node's own slot")
+	}
+
+	r4 := c.Rule("R4", "slot-array rewrites keep Count in step: whenever a node's Slots are cleared (to be repopulated) the node's Count is assigned before the node is saved or the function returns - a node whose Count still describes the old content exposes zero items to scans and searches", 5)
+	{
+		slotsF := w.Field("btree", "Node", "Slots")
+		countF := w.Field("btree", "Node", "Count")
+		nSites := 0
+		for _, f := range w.declaredFuncs("btree") {
+			g := w.G(f)
+			info := f.Pkg.TypesInfo
+			for _, n := range g.Nodes {
+				for _, cs := range n.Calls {
+					if cs.Key != "builtin.clear" || len(cs.Call.Args) != 1 {
+						continue
+					}
+					sel, ok := ast.Unparen(cs.Call.Args[0]).(*ast.SelectorExpr)
+					if !ok || fieldOfSelector(info, sel) != slotsF {
+						continue
+					}
+					nSites++
+					base := types.ExprString(sel.X)
+					setCount := func(x *GNode) bool {
+						switch st := x.Ast.(type) {
+						case *ast.AssignStmt:
+							for _, l := range st.Lhs {
+								if ls, ok := ast.Unparen(l).(*ast.SelectorExpr); ok && fieldOfSelector(info, ls) == countF && types.ExprString(ls.X) == base {
+									return true
+								}
+							}
+						case *ast.IncDecStmt:
+							if ls, ok := ast.Unparen(st.X).(*ast.SelectorExpr); ok && fieldOfSelector(info, ls) == countF && types.ExprString(ls.X) == base {
+								return true
+							}
+						}
+						return false
+					}
+					until := func(x *GNode) bool {
+						if x.Ret != nil || x.Exit {
+							return true
+						}
+						for _, c2 := range x.Calls {
+							if c2.Key == "btree.Btree.saveNode" && len(c2.Call.Args) == 1 && types.ExprString(c2.Call.Args[0]) == base {
+								return true
+							}
+						}
+						return false
+					}
+					offs := g.MustFollow([]*GNode{n}, setCount, until)
+					c.Offences(g, offs, r4, fmt.Sprintf("%s: clear(%s.Slots) #%d is followed by an assignment of %s.Count", shortKey(f.Key), base, ordinalOf(w, f, cs), base), cs.Call.Pos(),
+						"Count assigned before the node is saved / the function returns",
+						"the node is saved with its Slots rewritten but its Count unchanged: turned into a one-item inner node it keeps Count == SlotLength, so scans return zero items, the slot array is no longer sorted for the search and Find misses real keys")
+				}
+			}
+		}
+		c.Check(nSites >= 5, r4, "clear(node.Slots) sites inventoried", token.NoPos, fmt.Sprintf("%d sites", nSites), fmt.Sprintf("only %d sites", nSites), nil)
+	}
+
+	r5 := c.Rule("R5", "items are placed by key: a function that hangs a new child holding a caller-supplied item under ChildrenIDs[i] takes i from its caller or derives it from a key comparison / a direction argument - never from the mere position of a free child pointer", 2)
+	{
+		childrenF := w.Field("btree", "Node", "ChildrenIDs")
+		nSites := 0
+		for _, f := range w.declaredFuncs("btree") {
+			if f.Obj == nil {
+				continue
+			}
+			sig := f.Obj.Type().(*types.Signature)
+			var itemP *types.Var
+			for i := 0; i < sig.Params().Len(); i++ {
+				if pt, ok := sig.Params().At(i).Type().(*types.Pointer); ok {
+					if nt, ok := pt.Elem().(*types.Named); ok && nt.Obj().Name() == "Item" {
+						itemP = sig.Params().At(i)
+					}
+				}
+			}
+			if itemP == nil {
+				continue
+			}
+			info := f.Pkg.TypesInfo
+			defs := localDefs(f)
+			// a local node created here that receives the item
+			newChild := map[types.Object]bool{}
+			ast.Inspect(f.Body, func(x ast.Node) bool {
+				as, ok := x.(*ast.AssignStmt)
+				if !ok {
+					return true
+				}
+				for i, l := range as.Lhs {
+					if i < len(as.Rhs) && mentionsObj(info, as.Rhs[i], itemP) {
+						if ix, ok := ast.Unparen(l).(*ast.IndexExpr); ok {
+							if sel, ok := ast.Unparen(ix.X).(*ast.SelectorExpr); ok && sel.Sel.Name == "Slots" {
+								if id, ok := ast.Unparen(sel.X).(*ast.Ident); ok {
+									if o := info.Uses[id]; o != nil {
+										for _, d := range defs[o] {
+											if w.mentionsCall(f, d, "btree.newNode") {
+												newChild[o] = true
+											}
+										}
+									}
+								}
+							}
+						}
+					}
+				}
+				return true
+			})
+			if len(newChild) == 0 {
+				continue
+			}
+			// ChildrenIDs[i] = child.ID
+			ast.Inspect(f.Body, func(x ast.Node) bool {
+				as, ok := x.(*ast.AssignStmt)
+				if !ok || len(as.Lhs) != 1 || len(as.Rhs) != 1 {
+					return true
+				}
+				ix, ok := ast.Unparen(as.Lhs[0]).(*ast.IndexExpr)
+				if !ok || fieldOfSelector(info, ix.X) != childrenF {
+					return true
+				}
+				isChild := false
+				for o := range newChild {
+					if mentionsObj(info, as.Rhs[0], o) {
+						isChild = true
+					}
+				}
+				if !isChild {
+					return true
+				}
+				nSites++
+				construct := fmt.Sprintf("%s: the child position that receives the supplied item is chosen by key", shortKey(f.Key))
+				okIdx := false
+				why := ""
+				if id, ok := ast.Unparen(ix.Index).(*ast.Ident); ok {
+					o := info.Uses[id]
+					for i := 0; i < sig.Params().Len(); i++ {
+						if o == types.Object(sig.Params().At(i)) {
+							okIdx, why = true, "index is a parameter (the caller's search result)"
+						}
+					}
+					if !okIdx {
+						for i := 0; i < sig.Params().Len(); i++ {
+							if b, isB := sig.Params().At(i).Type().Underlying().(*types.Basic); isB && b.Kind() == types.Bool && w.mentionsDeep(f, defs, ix.Index, sig.Params().At(i)) {
+								okIdx, why = true, "index depends on a direction argument"
+							}
+						}
+						// conditions controlling the index: any comparison involving the item's key
+						g := w.G(f)
+						for _, cn := range g.Nodes {
+							if cn.IsCond && cn.Ast != nil && mentionsObj(info, cn.Ast, itemP) {
+								okIdx, why = true, "a condition on the item's key controls the placement"
+							}
+						}
+						if w.mentionsDeep(f, defs, ix.Index, nil, "btree.Btree.compare", "btree.Node.getIndexToInsertTo", "sort.Search", "btree.Btree.Compare") {
+							okIdx, why = true, "index derives from a key search"
+						}
+					}
+				} else if _, isLit := ast.Unparen(ix.Index).(*ast.BasicLit); isLit {
+					okIdx, why = true, "constant position"
+				}
+				c.Check(okIdx, r5, construct, as.Pos(), why,
+					"the new child holding the supplied item is attached under the first free child pointer, whatever the item's key: an item rotated in from a sibling (greater than all keys when coming from the right, smaller when coming from the left) lands between keys it does not belong between; scans return it out of order and Find misses it", nil)
+				return true
+			})
+		}
+		c.Check(nSites >= 2, r5, "child-attachment sites inventoried", token.NoPos, fmt.Sprintf("%d sites", nSites), fmt.Sprintf("only %d sites", nSites), nil)
 	}
 }
